@@ -357,7 +357,8 @@ def cmd_check(args):
     qs = [q for q in queries.QUERIES if q['prop'] == pid and tier in q.get('tiers', ('quick', 'thorough'))]
     if args.only:
         qs = [q for q in qs if args.only in q['id']]
-    meta = queries.PROPS.get(pid, {})
+    import props
+    meta = props.PROPS.get(pid, {})
     t0 = time.time()
     sc = Scratch(keep=args.keep)
     results = []
